@@ -55,8 +55,8 @@ impl Property for C02 {
          0..3 s (reordering, no loss), then every hop takes 10..200 ms. Oracle (virtual time): within (windows+2) * 3.5 s \
          after stabilisation every correct node's finalized_slot() has passed the expected window; for windows that start \
          after stabilisation plus 3 s and have a correct leader, none of the four slots is skip-certified and each has a \
-         finalisation certificate on the wire; when >= 80 % of the stake is live every correct node broadcasts a \
-         fast-finalization certificate for each of them; no task panics. Windows in which some slice had fewer than 32 \
+         finalisation certificate on the wire; when >= 80 % of the stake is live a fast-finalization certificate \
+         for each of them is created by some correct node and held (created or received) by every correct node; no task panics. Windows in which some slice had fewer than 32 \
          shreds sent to live relays are excluded as 'assumption not met' (Rotor's delivery is probabilistic by design). \
          Non-trivial: stabilisation happens after a disturbed phase and >= 2 windows with correct leaders were judged."
             .into()
@@ -254,8 +254,18 @@ async fn run(case: &Case) -> Outcome {
     let mut fin_cert: BTreeSet<u64> = BTreeSet::new();
     let mut fast_from: BTreeMap<u64, BTreeSet<usize>> = BTreeMap::new();
     let mut seen: BTreeSet<(usize, Vec<u8>)> = BTreeSet::new();
+    // who holds a fast-finalization certificate per slot: its creator (the sender) and everybody it
+    // was delivered to (a node that receives the certificate before it has collected 80 % of the
+    // notar votes itself never creates - and hence never broadcasts - one of its own)
+    let mut fast_holders: BTreeMap<u64, BTreeSet<usize>> = BTreeMap::new();
     for e in &log {
         if !seen.insert((e.from, e.bytes.to_vec())) {
+            // same message to another receiver
+            if let Ok(ConsensusMessage::Cert(c)) = alpenglow::network::deserialize::<ConsensusMessage>(&e.bytes)
+                && cert_kind(&c) == CKind::FastFinal
+            {
+                fast_holders.entry(c.slot().inner()).or_default().insert(e.to);
+            }
             continue;
         }
         match alpenglow::network::deserialize::<ConsensusMessage>(&e.bytes) {
@@ -273,6 +283,8 @@ async fn run(case: &Case) -> Outcome {
                     CKind::FastFinal => {
                         fin_cert.insert(s);
                         fast_from.entry(s).or_default().insert(e.from);
+                        fast_holders.entry(s).or_default().insert(e.from);
+                        fast_holders.entry(s).or_default().insert(e.to);
                     }
                     CKind::Final => {
                         fin_cert.insert(s);
@@ -416,10 +428,11 @@ async fn run(case: &Case) -> Outcome {
                 // 60 % legitimately completes first and the slow node never needs to vote
                 if live_stake * 5 >= total * 4 && slow.is_none() {
                     let from = fast_from.get(&s).cloned().unwrap_or_default();
-                    if !live.iter().all(|v| from.contains(v)) {
+                    let holders = fast_holders.get(&s).cloned().unwrap_or_default();
+                    if from.is_empty() || !live.iter().all(|v| holders.contains(v)) {
                         out.violate(
                             "C02/no-fast-finalisation-with-80-percent-live",
-                            format!("window {w} slot {s}: live stake {live_stake}/{total}; fast-final certificate broadcast by {from:?}, live nodes {live:?}"),
+                            format!("window {w} slot {s}: live stake {live_stake}/{total}; fast-final certificate created by {from:?}, held (created or received) by {holders:?}, live nodes {live:?}"),
                         );
                         break;
                     }
